@@ -46,6 +46,7 @@ impl DNSIterable for ResponseIterator<'_> {
 
     fn recompute_sections(&mut self) {
         self.rr_iterator.parsed_packet.recompute().unwrap();
+        self.rr_iterator.parsed_packet.maybe_compressed = false;
     }
 
     #[inline]
